@@ -234,6 +234,9 @@ def plan(tier, scale):
         out += [{"part": "dfs", "shape": {"msgs": [1, 1], "reentrant": None}, "bound": 3, "prefix": []},
                 {"part": "dfs", "shape": {"msgs": [1, 1], "reentrant": [0, 0]}, "bound": 2, "prefix": []},
                 {"part": "dfs", "shape": {"msgs": [2, 1], "reentrant": None}, "bound": 2, "prefix": []}]
+        # three preemptions with a second message from one thread: the shape in which a lost re-check strands a message
+        for p in frontier({"msgs": [1, 2], "reentrant": None}, 3, 2):
+            out.append({"part": "dfs", "shape": {"msgs": [1, 2], "reentrant": None}, "bound": 3, "prefix": p})
         return out
     out = [{"part": "random", "n": int(12000 * scale)} for _ in range(8)]
     # exhaustive 2 tasks x 1 message (unbounded), sharded on the first decisions (frontier found by running)
